@@ -23,6 +23,29 @@ func CheckSlotSpan(slotAfter func(delta time.Duration) common.Slot, slot common.
 	return nil
 }
 
+// CheckAttestationSlot checks the propagation window of an attestation / aggregate with the given data slot,
+// with MAXIMUM_GOSSIP_CLOCK_DISPARITY margin in time.
+//
+// Before deneb: slot + ATTESTATION_PROPAGATION_SLOT_RANGE >= current_slot >= slot.
+// From deneb on (EIP-7045): slot <= current_slot and compute_epoch_at_slot(slot) is the current or the previous epoch.
+func CheckAttestationSlot(spec *common.Spec, slotAfter func(delta time.Duration) common.Slot, slot common.Slot) error {
+	maxSlot := slotAfter(MAXIMUM_GOSSIP_CLOCK_DISPARITY)
+	if spec.SlotToEpoch(maxSlot) < spec.DENEB_FORK_EPOCH {
+		return CheckSlotSpan(slotAfter, slot, ATTESTATION_PROPAGATION_SLOT_RANGE)
+	}
+	if slot > maxSlot {
+		return fmt.Errorf("slot %d is too new, maximum slot is %d", slot, maxSlot)
+	}
+	epoch := spec.SlotToEpoch(slot)
+	// either end of the clock disparity interval may name the current epoch
+	for _, current := range []common.Epoch{spec.SlotToEpoch(slotAfter(-MAXIMUM_GOSSIP_CLOCK_DISPARITY)), spec.SlotToEpoch(maxSlot)} {
+		if epoch == current || (current != 0 && epoch == current-1) {
+			return nil
+		}
+	}
+	return fmt.Errorf("slot %d (epoch %d) is not in the current or previous epoch", slot, epoch)
+}
+
 // syncCommitteeForSlot returns the sync committee that signs at the given slot, as in the spec's
 // compute_subnets_for_sync_committee / get_sync_subcommittee_pubkeys: signatures made at slot are included at
 // slot+1, so at the last slot of a sync committee period the next sync committee is in charge.
